@@ -9,6 +9,8 @@ import itertools, sys
 from fractions import Fraction as F
 from . import common as C
 
+CLAIM_MORE = "The clause 'to rounding' is NOW A THEOREM (coq/Props/C16f.v, 26 statements): under |rnd x - x| <= eps|x| the running total satisfies |total - sum of stored weights| <= ((1+eps)^n - 1) * 2 * peak after every history, an emptied structure has total exactly 0, insert stores exactly and an increment is one rounding, stored weights equal the specification when increments create their key; rnd53 (round to nearest even, 53 bits, over Q) is proved to have relative error 2^-53, so the binary64 instances are unconditional; the model at rnd53 is tied bit for bit to the Python class on binary64 histories."
+
 CLAIM = dict(
     text="Machine-checked theorems (coq/Props/C16.v, closed under the global context) over an executable model of _ListDict_ written as the code is "
          "(item list, position map, weight map, tracked maximum and its miscount, running total): invariant after EVERY history of "
